@@ -262,7 +262,7 @@ def r_stmt(s, ind, ctxname):
     if k == "callbad":
         # an argument list that cannot be bound: extra positional for `def f(**kw)`, unexpected keyword (and missing p) for `def q(p)`
         c = s[1]
-        return [f"{ind}{r_cref(c)}(zz=1)" if c[-1] in QFUNCS else f"{ind}{r_cref(c)}(1)"]
+        return [f"{ind}{r_cref(c)}(zz=1)" if c[-1] in QFUNCS + WFUNCS else f"{ind}{r_cref(c)}(1)"]
     raise ValueError(s)
 
 
@@ -544,6 +544,14 @@ class Gen:
             prog.append(["assign", rng.choice(["_u", "_v"]), ["lit", rng.randint(1, 9)]])
         defs, names = self.func_defs(ints, callees, importable=[m for m in importable if "." not in m])
         prog += defs
+        if rng.random() < 0.3:
+            # a user decorator: returns a fresh function defined HERE, which works on this module's globals
+            x, y = rng.choice(ints), rng.choice(ints)
+            inner = [["assign", x, ["add", x, 1]], ["assign", y, ["add", x, 7]], ["assign", "cx", ["ctx"]]]
+            if rng.random() < 0.3:
+                inner.append(["return", ["name", y]])
+            prog.append(["def", "w1", [], [["def", "inner", sorted({x, y, "cx"}), inner, False], ["return", ["name", "inner"]]], False])
+            names = names + ["w1"]
         if rng.random() < 0.12:
             al = rng.sample(ints + names, rng.randint(1, min(3, len(ints + names))))
             prog.append(["assign", "__all__", ["names", al]])
@@ -575,7 +583,7 @@ class Gen:
             crefs = []
             for p in picks:
                 b = p
-                if rng.random() < 0.25 and p not in QFUNCS:
+                if rng.random() < 0.25 and p not in QFUNCS + WFUNCS:
                     b = rng.choice(["fa", "fb", "fc", "fd"])
                 items.append([p, b])
                 if p in ex["funcs"]:
@@ -616,11 +624,20 @@ class Gen:
             prog += [["assign", n, ["lit", rng.randint(0, 9)]] for n in rng.sample(ints, 1)]
         prog += own_defs
         own = [["n", n] for n in own_names]
+        decos = [c for c in callees if c[-1] in WFUNCS]
+        callees = [c for c in callees if c[-1] not in WFUNCS or rng.random() < 0.2]     # a bare w1() call is just a TypeError
+        if decos:
+            # a function of THIS file wrapped by a decorator imported from a module: what the name is bound to is the module's
+            # wrapper; it is called directly from this file's code (module level, functions, triggers, tasks) like any own function
+            x = rng.choice(ints)
+            prog.append(["defdeco", "f2", rng.choice(decos), [x], [["assign", x, ["add", x, 300]]], False])
+            own.append(["n", "f2"])
+            own.append(["n", "f2"])
         # a function that calls into other files, wrapped in try/except
         if callees:
             body = []
             for _ in range(rng.randint(1, 3)):
-                c = rng.choice(callees)
+                c = rng.choice(callees + [x for x in own if x == ["n", "f2"]])
                 st = ["call", rng.choice([None, "r", "last"]), c]
                 if st[1]:
                     pass
@@ -709,19 +726,23 @@ def gen_case(rng, with_setctx=False):
         g.make_module("modules/m1.py", "m1", list(mods))
         mods.append("m1")
     if layout in ("pkg", "mixed"):
-        # package with siblings; `other` is imported relatively by sib (and possibly by __init__)
-        g.make_module("modules/pkg/other.py", "pkg.other", [m for m in mods if rng.random() < 0.3])
+        # package with members; `othn` is imported relatively by `sibn` (and possibly by __init__).  Member names are drawn from a
+        # pool that overlaps with the package's own name, with top-level modules and with app names: context names are built from
+        # these components, so equal components at different levels must not confuse the resolution of relative imports
+        sibn = rng.choice(["sib", "sib", "sib", "pkg", "pkg", "m1", "helper"])
+        othn = rng.choice([n for n in ["other", "other", "other", "m2", "app1", "pkg"] if n != sibn])
+        g.make_module(f"modules/pkg/{othn}.py", "pkg." + othn, [m for m in mods if rng.random() < 0.3])
         sib_rel = []
         if rng.random() < 0.6:
-            st, crefs, _ = g.import_stmt("pkg.other", ["ma", "mb"], level=1, relname="other")
+            st, crefs, _ = g.import_stmt("pkg." + othn, ["ma", "mb"], level=1, relname=othn)
             sib_rel.append((st, crefs))
-        g.make_module("modules/pkg/sib.py", "pkg.sib", [], rel_imports=sib_rel)
+        g.make_module(f"modules/pkg/{sibn}.py", "pkg." + sibn, [], rel_imports=sib_rel)
         init_rel = []
-        order = ["sib", "other"] if rng.random() < 0.5 else ["other", "sib"]
+        order = [sibn, othn] if rng.random() < 0.5 else [othn, sibn]
         for nm in order:
             # whatever a sibling imports relatively is imported by __init__ too: CPython binds an imported submodule as an
             # attribute of its parent package, which pyscript (legitimately) does not; an explicit import makes both agree
-            if rng.random() < 0.75 or (nm == "other" and sib_rel):
+            if rng.random() < 0.75 or (nm == othn and sib_rel):
                 # `from . import nm` first, then possibly `from .nm import ...`
                 init_rel.append((["fromdot", 1, [[nm, nm]]], [["a", nm, f] for f in g.exports["pkg." + nm]["funcs"]]))
                 if rng.random() < 0.5:
@@ -734,10 +755,11 @@ def gen_case(rng, with_setctx=False):
         mods.append("pkg")
     scripts = []
     if layout in ("app", "mixed") or rng.random() < 0.15:
-        g.make_module("apps/app1/helper.py", "app1.helper", [m for m in mods if rng.random() < 0.5])
-        rel = [(["fromdot", 1, [["helper", "helper"]]], [["a", "helper", f] for f in g.exports["app1.helper"]["funcs"]])]
+        hn = rng.choice(["helper", "helper", "app1", "m1"])       # an app member may be named like the app or like a module
+        g.make_module(f"apps/app1/{hn}.py", "app1." + hn, [m for m in mods if rng.random() < 0.5])
+        rel = [(["fromdot", 1, [[hn, hn]]], [["a", hn, f] for f in g.exports["app1." + hn]["funcs"]])]
         if rng.random() < 0.5:
-            st, crefs, _ = g.import_stmt("app1.helper", ["ma"], level=1, relname="helper")
+            st, crefs, _ = g.import_stmt("app1." + hn, ["ma"], level=1, relname=hn)
             if st[0] != "fromdot":
                 rel.append((st, crefs))
         g.make_script("apps/app1/__init__.py", [m for m in mods if "." not in m], rel_imports=rel)
@@ -837,6 +859,14 @@ def gen_deco_case(rng):
             else:
                 prog.append(["def", tname, [x, "y"], body, trig])
             fires.append([info["ctx"], tname, {"kind": kind, "v": v, "g": "thresh"}])
+        # the wrapped function is also called directly from the decorating file's own code
+        if rng.random() < 0.8:
+            prog += [["call", rng.choice([None, "r"]), ["n", "tf"]], ["assign", "cy", ["ctx"]]]
+        if rng.random() < 0.6:
+            x = rng.choice(ints)
+            prog.append(["def", "f1", [x, "cx", "r"], [["call", "r", ["n", "tf"]], ["call", None, ["n", "tg"]],
+                                                        ["assign", x, ["add", x, 10]], ["assign", "cx", ["ctx"]]], False])
+            prog.append(rng.choice([["call", None, ["n", "f1"]], ["task", ["n", "f1"]]]))
         files.append({"path": nm, "prog": prog})
     rng.shuffle(fires)
     return {"legacy": rng.random() < 0.6, "files": files, "apps": [], "fires": fires}
